@@ -52,8 +52,8 @@ func CInt(i int64) AV  { return AV{Kind: KConst, C: constant.MakeInt64(i)} }
 func CStr(s string) AV { return AV{Kind: KConst, C: constant.MakeString(s)} }
 
 // Nil and NonNil build reference abstractions.
-func Nil() AV                { return AV{Kind: KNil} }
-func NonNil(key string) AV   { return AV{Kind: KNonNil, Key: key} }
+func Nil() AV                    { return AV{Kind: KNil} }
+func NonNil(key string) AV       { return AV{Kind: KNonNil, Key: key} }
 func (a AV) withDyn(d string) AV { a.Dyn = d; return a }
 
 // String renders the value for outcome comparison.
@@ -85,8 +85,12 @@ func (a AV) String() string {
 }
 
 // IsTrue / IsFalse report constant booleans.
-func (a AV) IsTrue() bool  { return a.Kind == KConst && a.C != nil && a.C.Kind() == constant.Bool && constant.BoolVal(a.C) }
-func (a AV) IsFalse() bool { return a.Kind == KConst && a.C != nil && a.C.Kind() == constant.Bool && !constant.BoolVal(a.C) }
+func (a AV) IsTrue() bool {
+	return a.Kind == KConst && a.C != nil && a.C.Kind() == constant.Bool && constant.BoolVal(a.C)
+}
+func (a AV) IsFalse() bool {
+	return a.Kind == KConst && a.C != nil && a.C.Kind() == constant.Bool && !constant.BoolVal(a.C)
+}
 
 // Effect is an observable action of an abstract run.
 type Effect struct {
@@ -96,7 +100,9 @@ type Effect struct {
 	Pos  token.Pos
 }
 
-func (e Effect) String() string { return e.Kind + " " + e.Name + "(" + strings.Join(e.Args, ", ") + ")" }
+func (e Effect) String() string {
+	return e.Kind + " " + e.Name + "(" + strings.Join(e.Args, ", ") + ")"
+}
 
 // Env is a feature valuation.
 type Env map[string]AV
@@ -1053,12 +1059,12 @@ func (f Features) Key(k string) string { return f.get(k).Key }
 
 // DecideCfg configures a decision-table check.
 type DecideCfg struct {
-	Dom      Domain
-	Inline   func(*ssa.Function) bool
-	OnCall   func(it *Interp, name string, args []AV) (AV, bool)
-	NonNil   map[string]bool
-	Args     func(it *Interp) []AV
-	MaxRuns  int
+	Dom     Domain
+	Inline  func(*ssa.Function) bool
+	OnCall  func(it *Interp, name string, args []AV) (AV, bool)
+	NonNil  map[string]bool
+	Args    func(it *Interp) []AV
+	MaxRuns int
 	// Expect returns "" if outcome o is right for the valuation, else a
 	// description of what was expected.
 	Expect func(f Features, o AOutcome) string
